@@ -51,6 +51,11 @@ META = {
         text="C13_noop, C13_served, C13_fail_clean are proved for every source outcome, header list and commit outcome; C13_tie (T-fact) pins the compare-before-Commit structure and the use of nilfs. The mirror stream checks that the target alone serves the identical fileset, that a second mirror is a no-op without sources, that sources are untouched and failures leave the target clean; the kvfs stream injects faults into the copy.",
         note="Trusted: Lean kernel; codec hypothesis; C08 for the atomicity of the commit itself.",
     ),
+    "C15": dict(
+        technique="Lean 4 theorems on the model of Assembler.Run / Teardown for any number of inputs + exhaustive differential correspondence with injected failures",
+        text="C15_order, C15_no_delete_after_failure, C15_all_ok (teardown: newest first; after the first failure recursive-delete janitors are skipped, unmount-style ones still attempted, first failure reported), C15_rollback (first failing parent/placement step of any assembly tears down exactly the earlier placements), C15_unpack_failure_places_nothing, for lists of any length; C15_ties pins AlwaysTry of the real janitors and the rollback call sites (T-fact). The model is compared with the real code on every configuration up to n = 3/4.",
+        note="Trusted: Lean kernel; the verif constructor NewAssemblerForVerif (build-tagged export).",
+    ),
     "C16": dict(
         technique="Lean 4 theorems (first holder wins, error kinds, usage) by induction over the warehouse list + exhaustive differential correspondence",
         text="C16_first / C16_errors / C16_usage are proved for lists of any length about the model of PickReader and of the controllers' answers; the model is compared with the real PickReader on every list up to length 2/3 over 16 warehouse kinds (real directories, loopback HTTP).",
